@@ -24,6 +24,16 @@ type gen struct {
 	bodies  map[string]string // name -> body
 	order   []string          // definition order of all names
 	blocks  []string          // names defined by {{block}}
+	big     bool              // thorough tier: larger sets and histories
+}
+
+// n draws base+[0,span); the big profile adds span on top.
+func (g *gen) n(base, span int) int {
+	v := base + g.r.Intn(span)
+	if g.big {
+		v += span
+	}
+	return v
 }
 
 func newGen(seed uint64, prop string, run int) *gen {
